@@ -264,6 +264,10 @@ def make_filter_classes():
                 raise RuntimeError('injected error')
             elif inj['how'] == 'stop_evt':
                 self.stop_evt.set()
+            elif inj['how'] == 'interrupt':
+                raise KeyboardInterrupt()          # Ctrl-C delivered while the filter is processing (sig_stop off)
+            elif inj['how'] == 'sysexit':
+                raise SystemExit(3)
             elif inj['how'] in ('fail_send', 'fail_recv'):
                 world().sim.me().fail_next = inj['how'][5:]
 
@@ -409,14 +413,23 @@ class World:
         inc = self.incarnation[node]
         events = []
         self.lineage_events[(node, inc)] = events
+        prev = self.emitters.get((node, inc - 1))
+        if prev is not None and self.scn['lineage'].get('reuse_emitter'):
+            # the filter is run again in the same process (supervisor loop): the class-level emitter object serves the next run too
+            prev.client.events = events
+            self.emitters[(node, inc)] = prev
+            return prev
 
         fault = self.scn['lineage'].get('client_fault')      # which events the transport fails on AFTER the backend got them (reply timed out)
 
         class Cap:
+            def __init__(self):
+                self.events = events
+
             def emit(self, event):
                 et = event.eventType
                 kind = getattr(et, 'value', None) or getattr(et, 'name', None) or str(et)
-                events.append((kind, event.run.runId))
+                self.events.append((kind, event.run.runId))
                 if fault == 'every' or (fault == 'terminal' and kind in ('COMPLETE', 'ABORT', 'FAIL')) or (fault and fault.upper() == kind):
                     raise TimeoutError('lineage backend did not answer (event was delivered)')
         em = OpenFilterLineage(client=Cap(), filter_name='VFilter')
